@@ -347,7 +347,9 @@ def symplectic_case(rs, n, kind):
         return interferometer_symplectic(haar(rs, n))
     if kind == "identity":
         return np.identity(2 * n)
-    r = rs.uniform(0.2, 1.2, n)
+    # squeezing values from a grid: two values are either equal (a genuinely degenerate singular value) or differ by
+    # >= 0.1, so that the singular subspaces are well conditioned also in the "near_passive" class (r * 1e-4)
+    r = rs.choice(np.arange(2, 13) / 10.0, n)
     if kind == "degenerate":
         r[:] = r[0]
     elif kind == "pairs" and n >= 2:
